@@ -52,6 +52,15 @@ fn hang_limit() -> std::time::Duration {
     std::time::Duration::from_secs(s)
 }
 
+/// Progress mark: the liveness bound applies to one operation / one scheduled execution, not to a
+/// whole run (a run may legitimately consist of dozens of deep searches).
+pub fn watchdog_touch() {
+    if let Some(w) = WATCH.lock().unwrap().as_mut() {
+        w.1 = Instant::now();
+        w.3 = cpu_seconds();
+    }
+}
+
 /// CPU seconds (user + system) this process has used so far.
 fn cpu_seconds() -> f64 {
     let stat = std::fs::read_to_string("/proc/self/stat").unwrap_or_default();
@@ -122,6 +131,7 @@ static LAST_PANIC: Mutex<Option<String>> = Mutex::new(None);
 
 pub fn set_phase(p: &'static str) {
     *PHASE.lock().unwrap() = p;
+    watchdog_touch();
 }
 
 pub fn phase() -> &'static str {
